@@ -398,6 +398,18 @@ func (e *evalCtx) call(t *ast.CallExpr) Val {
 			e.fail("loopvar(%d, %s): not found", n, id2.Name)
 		}
 		return v
+	case "ghost":
+		// ghost(x, name): ghost field `name` of the object x refers to
+		ref, key, sort := e.ghostCell(t)
+		h := c.heapGet(e.st, key, sort)
+		r := sx("select", sx("select", h, ref), "0")
+		switch sort {
+		case "Int":
+			return mathInt(r)
+		case "Bool":
+			return boolVal(r)
+		}
+		return mathVal(sort, r)
 	case "entry":
 		// entry(p): the value parameter p had on entry (inside a loop the
 		// bare name denotes the loop-carried variable)
@@ -506,6 +518,37 @@ func (e *evalCtx) call(t *ast.CallExpr) Val {
 	}
 	e.fail("unknown function %s in contract", id.Name)
 	return Val{}
+}
+
+// ghostCell resolves ghost(x, name) to (object reference, heap key, sort).
+func (e *evalCtx) ghostCell(t *ast.CallExpr) (ref, key, sort string) {
+	if len(t.Args) != 2 {
+		e.fail("ghost(x, name) expected")
+	}
+	id, ok := t.Args[1].(*ast.Ident)
+	if !ok {
+		e.fail("ghost: second argument must be a field name")
+	}
+	v := e.eval(t.Args[0])
+	switch v.K {
+	case kPtr, kSlice:
+		ref = v.Ref
+	case kIface, kMap, kOpaque:
+		ref = v.S
+	case kFunc:
+		ref = e.c.fnTerm(v)
+	default:
+		if isIntLike(v) {
+			ref = v.S
+		} else {
+			e.fail("ghost: first argument of kind %d has no identity", v.K)
+		}
+	}
+	sort = ghostSorts[id.Name]
+	if sort == "" {
+		sort = "Int"
+	}
+	return ref, "G_" + id.Name, sort
 }
 
 func (e *evalCtx) sliceUnchanged(s Val, lo, hi string) string {
